@@ -12,19 +12,20 @@ import (
 )
 
 type propCfg struct {
-	engine       string
-	instrumented bool
-	level        string
-	rule         string
-	components   map[string][]string
-	assumptions  []string
-	wantProbes   []string
-	quickS       int
-	thoroughS    int
-	variantsQ    []string
-	variantsT    []string
-	env          []string
-	extra        []*propCfg // further engines serving the same property (run with the same budget)
+	engine           string
+	instrumented     bool
+	level            string
+	rule             string
+	components       map[string][]string
+	assumptions      []string
+	wantProbes       []string
+	quickS           int
+	thoroughS        int
+	variantsQ        []string
+	variantsT        []string
+	env              []string
+	crashIsViolation bool       // the process dying inside a run is the violation (memory ownership)
+	extra            []*propCfg // further engines serving the same property (run with the same budget)
 }
 
 func (p *propCfg) variants(tier string) []string {
@@ -151,7 +152,7 @@ func init() {
 		components:  map[string][]string{"real": {"pkg/pool/byteslice", "pkg/pool/ringbuffer", "pkg/buffer/ring"}, "stub": {"sync.Pool (deterministic LIFO, so that what Get returns is a function of the history, not of P-local caches and GC timing)", "goroutine scheduling (sim/vsched)"}},
 		assumptions: []string{"sizes above 4 MiB (and the > MaxInt32 branch) are not exercised", "the system-level consequence (one connection's data never overwritten through another's buffers) is covered by the content oracles of C01/C02 under connection churn, not by this engine"},
 		wantProbes:  []string{"gets", "puts", "put-resliced", "put-foreign", "ring-gets"},
-		variantsQ:   []string{"default"}, variantsT: []string{"default"}}
+		variantsQ:   []string{"default"}, variantsT: []string{"default"}, crashIsViolation: true}
 	// C03 has two engines: the whole-engine level (vsim) registered above and
 	// the poller level, run as a second stage by the same check.
 	props["C03"].extra = []*propCfg{{engine: "vpoll", instrumented: true,
